@@ -4,7 +4,7 @@ three statements (sort, diff-days, final comparison); `src_check_two_month_week_
 shows the cut is the generated definition itself. The diff-days statement is compared with the model's
 `mwdDiffDays` arm by arm, the `unreachable!()` arm included.
 -/
-import TzVerif.Generated.Src
+import TzVerif.SrcBase
 import TzVerif.Model.Rule
 import TzVerif.Proofs.SrcEqCal
 import TzVerif.Proofs.SrcEqRuleSearch
